@@ -296,10 +296,23 @@ def r12e(ctx):
                 continue
             ctx.check(ok, 'R12e', p, 'index', a.loc(cb), 'range index %s on bytes decoded from a directory entry is %s' % (flow.show(idx)[:40], why),
                       'unguarded range index %s on bytes decoded from a name found on disk: a planted or damaged directory entry panics the cache on open' % flow.show(idx)[:50])
+        # `buf.split_at(mid)` panics when mid > len: same obligation as a range index
+        for cb in a.calls():
+            if sg(a.term(cb).get('fn', '')).split('::')[-1] not in ('split_at', 'split_at_mut') or len(a.term(cb)['args']) != 2:
+                continue
+            base, mid = a.arg(cb, 0), a.arg(cb, 1)
+            if not flow.mentions(base, lambda z: z[0] == 'call' and (sg(z[1]).endswith('Engine::decode') or sg(z[1]).endswith('as_encoded_bytes') or sg(z[1]).endswith('file_name'))):
+                continue
+            n += 1
+            v = flow.const_eval(mid)
+            ge = edges_where(a, lambda op, l, r: op in ('Ge', 'Gt', 'Eq') and 'len' in flow.show(l) and flow.mentions(l, lambda z: flow.eqv(z, base)) and flow.const_eval(r) is not None and v is not None and
+                             (flow.const_eval(r) >= v if op in ('Ge', 'Eq') else flow.const_eval(r) >= v - 1)) if v is not None else []
+            ctx.check(bool(ge) and a.cfg.must_pass(cb, via_edges=ge), 'R12e', p, 'split_at', a.loc(cb), 'split_at(%s) on bytes decoded from a directory entry is dominated by len >= %s' % (v, v),
+                      'unguarded split_at on bytes decoded from a name found on disk: a planted or damaged directory entry panics the cache on open')
         # unwrap/expect on tainted values
         for cb in a.calls('core::result::Result::unwrap', 'core::option::Option::unwrap', 'core::result::Result::expect', 'core::option::Option::expect'):
             v = a.arg(cb, 0)
             if flow.mentions(v, lambda z: z[0] == 'call' and (sg(z[1]).endswith('Engine::decode') or sg(z[1]).endswith('from_utf8') or sg(z[1]).endswith('from_slice') or sg(z[1]).endswith('to_str'))):
                 n += 1
                 ctx.fail('R12e', p, 'unwrap', a.loc(cb), 'unwrap/expect on a value parsed from a name found on disk (%s)' % flow.show(v)[:50])
-    ctx.floor('R12e', 'input-tainted range-index sites on the scan path', n, 2)
+    ctx.floor('R12e', 'input-tainted range-index / split_at sites on the scan path', n, 1)
